@@ -38,7 +38,7 @@ func ValidateEvolution(latest *Environment, predecessors []*Environment, version
 		}
 
 		// Rename all former TypeDefinition Nodes to avoid name conflicts in codegen
-		renameOldTypeDefinitions(predecessor, definitionChanges, versionLabels[i])
+		renameOldTypeDefinitions(predecessor, definitionChanges, versionLabels[i], latest.GetTopLevelNamespace().Name)
 
 		// Save all TypeDefinition changes for codegen
 		latest.GetTopLevelNamespace().DefinitionChanges[versionLabels[i]] = definitionChanges
@@ -54,7 +54,9 @@ func ValidateEvolution(latest *Environment, predecessors []*Environment, version
 	return latest, allWarnings, nil
 }
 
-func renameOldTypeDefinitions(env *Environment, changes []DefinitionChange, versionLabel string) {
+// All compatibility aliases and serializers are generated in the top-level
+// namespace, so the renamed definitions of imported namespaces move there too.
+func renameOldTypeDefinitions(env *Environment, changes []DefinitionChange, versionLabel string, topLevelNamespace string) {
 	oldNames := make(map[string]bool)
 	for _, ch := range changes {
 		td := ch.PreviousDefinition()
@@ -62,6 +64,7 @@ func renameOldTypeDefinitions(env *Environment, changes []DefinitionChange, vers
 
 		// log.Debug().Msgf("Renaming OLD %s", td.GetDefinitionMeta().GetQualifiedName())
 		td.GetDefinitionMeta().Name = td.GetDefinitionMeta().Name + "_" + versionLabel
+		td.GetDefinitionMeta().Namespace = topLevelNamespace
 	}
 
 	Visit(env, func(self Visitor, node Node) {
@@ -70,6 +73,7 @@ func renameOldTypeDefinitions(env *Environment, changes []DefinitionChange, vers
 			oldName := node.GetDefinitionMeta().GetQualifiedName()
 			if oldNames[oldName] {
 				node.GetDefinitionMeta().Name = node.GetDefinitionMeta().Name + "_" + versionLabel
+				node.GetDefinitionMeta().Namespace = topLevelNamespace
 			}
 			self.VisitChildren(node)
 
